@@ -1,6 +1,7 @@
 package checks
 
 import (
+	"bytes"
 	"encoding/base64"
 	"encoding/json"
 	"fmt"
@@ -249,6 +250,7 @@ func c09Values(ch *characteristic.Characteristic) []c09Val {
 		add("html", `<b>&amp;</b> <script>alert(1)</script>`)
 		add("non-bmp", "smile 😀 and 𝄞 clef, ü, 日本")
 		add("control", "tab\there\nnewline sep")
+		add("format-verbs", "charging 50% of 100%s %d %v %%!(EXTRA)")
 		add("protocol", "HTTP/1.0 is not HTTP/1.1, EVENT/1.0 200 OK\r\nContent-Length: 0\r\n\r\nHTTP/1.0")
 		add("1KiB", strings.Repeat("0123456789abcdef", 64))
 		add("3000", strings.Repeat("xyz", 1000))
@@ -452,9 +454,93 @@ func c09Overlap(c *fw.Ctx) {
 			c.Class(fmt.Sprintf("overlap:%s:%dKiB", order, sz/1024))
 		}
 	}
+	c09EventDuringResponse(c, s, strs)
 }
 
 // (F) values supplied at read time through OnValueGet, and several writes in ONE request.
+// c09EventDuringResponse: an EVENT for controller A becomes due while the server is inside A's own long response: B
+// writes a characteristic A is subscribed to while A has stopped reading its 12 MiB answer. A's response must arrive
+// intact — an EVENT is a message of its own, it cannot sit between the chunks of another message — followed by exactly
+// one EVENT with the value. Own connections: a failure leaves them out of step.
+func c09EventDuringResponse(c *fw.Ctx, s *c09Sys, strs []*c09Char) {
+	var ks [2]*refctl.Ctl
+	for i := range ks {
+		k, err := refctl.DialRcvBuf(s.w.Addr, 64<<10)
+		if err != nil {
+			c.Infra(err.Error())
+			return
+		}
+		defer k.Close()
+		k.Timeout = 60 * time.Second
+		if _, ec, err := refctl.PairVerify(k, idL, refctl.Seed32(fmt.Sprintf("c09-ev%d", i)), nil); err != nil || ec != 0 {
+			c.Infra("verify failed")
+			return
+		}
+		ks[i] = k
+	}
+	ka, kb := ks[0], ks[1]
+	const sig = "event-inside-response"
+	for _, cc := range s.chars {
+		ch := cc.Ch
+		if ch.Format != characteristic.FormatBool || !ch.IsWritable() || !ch.IsReadable() || !ch.IsObservable() {
+			continue
+		}
+		c.Eval(1)
+		cas := c09Case{Kind: "overlap", Len: 12 << 20, IDs: "A-blocked-B-writes-what-A-subscribed-to"}
+		id := fmt.Sprintf(`"aid":%d,"iid":%d`, cc.Acc.ID, ch.ID)
+		if m, _, err := ka.Do("PUT", "/characteristics", refctl.CTJSON, []byte(`{"characteristics":[{`+id+`,"ev":true}]}`)); err != nil || m.Status/100 != 2 {
+			c.Infra(fmt.Sprintf("subscribe: %v %v", m, err))
+			break
+		}
+		va := strings.Repeat("A", 12<<20)
+		strs[0].Ch.UpdateValue(va)
+		nv := ch.Value != true
+		if err := ka.Send(refctl.BuildRequest("GET", fmt.Sprintf("/characteristics?id=%d.%d", strs[0].Acc.ID, strs[0].Ch.ID), "", nil)); err != nil {
+			c.Infra(err.Error())
+			break
+		}
+		if err := ka.PeekResponseStart(); err != nil {
+			c.Report(sig, "no response start: "+err.Error(), cas)
+			break
+		}
+		if err := kb.Send(refctl.BuildRequest("PUT", "/characteristics", refctl.CTJSON, []byte(fmt.Sprintf(`{"characteristics":[{%s,"value":%v}]}`, id, nv)))); err != nil {
+			c.Infra(err.Error())
+			break
+		}
+		time.Sleep(150 * time.Millisecond) // B's handler is now delivering the EVENT to A (it waits for A's response to finish)
+		m, evs, err := ka.Await()
+		if err != nil && strings.Contains(err.Error(), "does not authenticate") {
+			// not a message inside a message but frames out of order: the writers were not even serialised
+			c.Report("frames-undecryptable-when-event-meets-response", "while the server was inside a long response an EVENT for the same connection became due; after that the frames no longer decrypt in the order they arrive: "+err.Error(), cas)
+			break
+		}
+		if err != nil || m.Status != 200 {
+			c.Report(sig, fmt.Sprintf("a response during which an EVENT for the same connection became due does not complete — the EVENT message was written between two pieces of the response: %v", err), cas)
+			break
+		}
+		if es, perr := c09ParseEntries(m.Body); perr != nil || len(es) != 1 || !c09Same(es[0].Value, va) {
+			c.Report(sig, "the response during which an EVENT for the same connection became due arrived damaged", cas)
+			break
+		}
+		if mb, _, err := kb.Await(); err != nil || mb.Status/100 != 2 {
+			c.Report("overlap-failed/event/writer", fmt.Sprintf("the write that caused the EVENT is not answered: %v %v", mb, err), cas)
+			break
+		}
+		_, evs2, err := ka.Do("GET", fmt.Sprintf("/characteristics?id=%d.%d", cc.Acc.ID, ch.ID), "", nil)
+		if err != nil {
+			c.Report(sig, "the connection is unusable after the response and the EVENT: "+err.Error(), cas)
+			break
+		}
+		evs = append(evs, evs2...)
+		if len(evs) != 1 || !bytes.Contains(evs[0].Body, []byte(fmt.Sprintf(`"value":%v`, nv))) {
+			c.Report(sig, fmt.Sprintf("%d EVENT messages arrived for one change made while the subscriber's own response was being written", len(evs)), cas)
+		}
+		ka.Do("PUT", "/characteristics", refctl.CTJSON, []byte(`{"characteristics":[{`+id+`,"ev":false}]}`))
+		c.Class("overlap:event-during-own-response")
+		break
+	}
+}
+
 func c09GettersAndBatches(c *fw.Ctx) {
 	s, err := c09Build(c, 0)
 	if err != nil {
@@ -490,6 +576,88 @@ func c09GettersAndBatches(c *fw.Ctx) {
 	for _, cc := range s.chars {
 		if cc.Ch.IsWritable() && cc.Ch.IsReadable() && len(c09Values(cc.Ch)) >= 2 {
 			wr = append(wr, cc)
+		}
+	}
+	// every PUT list of length ≤3 (thorough ≤4) over: two writable characteristics of one accessory, one of another
+	// accessory, an unknown accessory, an unknown instance id — an existing characteristic at most once per list. Every
+	// existing target gets exactly the value written to IT, whatever surrounds its entry.
+	{
+		byAcc := map[uint64][]*c09Char{}
+		for _, cc := range wr {
+			if cc.Ch.Format == characteristic.FormatBool || cc.Ch.Format == characteristic.FormatUInt8 || cc.Ch.Format == characteristic.FormatInt32 || cc.Ch.Format == characteristic.FormatString {
+				byAcc[cc.Acc.ID] = append(byAcc[cc.Acc.ID], cc)
+			}
+		}
+		var a1, a2, b1 *c09Char
+		for _, cc := range wr {
+			l := byAcc[cc.Acc.ID]
+			if a1 == nil && len(l) >= 2 {
+				a1, a2 = l[0], l[1]
+			} else if a1 != nil && b1 == nil && cc.Acc.ID != a1.Acc.ID && len(l) >= 1 {
+				b1 = l[0]
+			}
+		}
+		if a1 != nil && b1 != nil {
+			syms := map[string]*c09Char{"a1": a1, "a2": a2, "b1": b1, "ne": nil, "ne-iid": nil}
+			order := []string{"a1", "a2", "b1", "ne", "ne-iid"}
+			depth := 3
+			if c.Thorough() {
+				depth = 4
+			}
+			round := 0
+			var rec func(h []string)
+			rec = func(h []string) {
+				if len(h) > 0 {
+					round++
+					c.Eval(1)
+					cas := c09Case{Kind: "batch", IDs: "put[" + strings.Join(h, ",") + "]"}
+					var parts []string
+					want := map[*c09Char]interface{}{}
+					for i, x := range h {
+						cc := syms[x]
+						switch {
+						case x == "ne":
+							parts = append(parts, `{"aid":999,"iid":999,"value":1}`)
+						case x == "ne-iid":
+							parts = append(parts, fmt.Sprintf(`{"aid":%d,"iid":9999,"value":1}`, a1.Acc.ID))
+						default:
+							vals := c09Values(cc.Ch)
+							v := vals[(round+i)%len(vals)]
+							if reflect.DeepEqual(cc.Ch.Value, v.V) {
+								v = vals[(round+i+1)%len(vals)]
+							}
+							jv, _ := json.Marshal(v.V)
+							parts = append(parts, fmt.Sprintf(`{"aid":%d,"iid":%d,"value":%s}`, cc.Acc.ID, cc.Ch.ID, jv))
+							want[cc] = v.V
+						}
+					}
+					m, _, err := s.k.Do("PUT", "/characteristics", refctl.CTJSON, []byte(`{"characteristics":[`+strings.Join(parts, ",")+`]}`))
+					if err != nil || (m.Status/100 != 2) {
+						c.Report("put-list-failed", fmt.Sprintf("PUT %s fails: %v %v", cas.IDs, m, err), cas)
+					} else {
+						for cc, v := range want {
+							if !reflect.DeepEqual(cc.Ch.Value, v) {
+								c.Report("put-list-write-differs", fmt.Sprintf("PUT %s: %s was written %v but the application sees %v", cas.IDs, cc.Name, string(trunc([]byte(fmt.Sprint(v)), 40)), string(trunc([]byte(fmt.Sprint(cc.Ch.Value)), 40))), cas)
+								break
+							}
+						}
+					}
+					c.Class(fmt.Sprintf("put-list:%d", len(h)))
+				}
+				if len(h) == depth {
+					return
+				}
+				for _, x := range order {
+					dup := false
+					for _, y := range h {
+						dup = dup || (y == x && syms[x] != nil)
+					}
+					if !dup {
+						rec(append(append([]string{}, h...), x))
+					}
+				}
+			}
+			rec(nil)
 		}
 	}
 	for _, k := range []int{2, 3, 5, 16, len(wr)} {
@@ -640,6 +808,13 @@ func c09Values1(c *fw.Ctx, part, parts int) {
 					case 3:
 						entry = fmt.Sprintf(`{"aid":%d,"ev":true,"value":%s,"iid":%d}`, cc.Acc.ID, jv, ch.ID)
 					}
+				}
+				// members the specification defines for a write and this library does not use are not an error
+				switch vi % 5 {
+				case 2:
+					entry = entry[:len(entry)-1] + `,"remote":false}`
+				case 3:
+					entry = entry[:len(entry)-1] + `,"authData":"AAEC","r":true}`
 				}
 				m, _, err := s.k.Do("PUT", "/characteristics", refctl.CTJSON, []byte(`{"characteristics":[`+entry+`]}`))
 				if err != nil || m.Status/100 != 2 {
@@ -926,7 +1101,7 @@ func init() {
 	fw.Register(&fw.Check{
 		ID:     "C09",
 		Level:  "exploration",
-		Rule:   "real transport over TCP with a verified independent controller; accessories assembled from EVERY characteristic constructor found in /repo. (A) every constructor × the boundary alphabet of its format inside its bounds (min, min+step, mid, max−step, max; booleans; strings: empty, ASCII, quotes/backslashes, HTML characters, non-BMP runes, control characters, 1 KiB, 3000 bytes; base64 payloads of 0/1/300/5000 bytes): application-set value read by single id, in an id list and in /accessories; controller-written value compared with the typed getter and the remote-update callback. (B) id-list shapes [e] [ne] [e,ne] [ne,e] [e,e] [e1,e2,e3] [50 ids] [write-only] …: each id answered once, in order, with a value or a non-zero status, multi-status ⇒ every entry has a status. (C) response body length sweep: every string length 0..4200 (quick) / 0..9000 (thorough), walking every residue of the 2048-byte chunker, net/http's 4096-byte writer and the 1024-byte frame. (D) databases of 8, 9, 17, 57 (thorough 157) accessories. (E) overlapping responses of two verified controllers, the interleaving forced by flow control (one stops reading inside a response of 5000 / 6000 bytes / 12 MiB with fixed 64 KiB receive buffers while the other completes a request), both orders. After every controller write the value is read back by id and in /accessories. (F) every readable constructor with an application read callback (OnValueGet) returning each value of its alphabet; PUT requests writing 2, 3, 5, 16 and all writable characteristics with different values at once. distinct_nontrivial = distinct (operation, format / shape / frame count) classes Values are set through the typed setter of the constructor's type and through UpdateValue in turn, and the typed remote-update callback (func(int), func([]byte), …) of every constructor must receive exactly the written value once. Plus, in a subprocess built with a scheduling point before EVERY statement of hc's packages (textual insertion through go build -overlay): every interleaving with at most 1 (thorough 2) preemptions of pairs of operations on disjoint objects — and, where the property is about served requests, of pairs of handlers on two verified connections of one accessory touching different characteristics — each side must observe exactly what it observes when the two run one after the other (module-level mutable state is what makes them differ).",
+		Rule:   "real transport over TCP with a verified independent controller; accessories assembled from EVERY characteristic constructor found in /repo. (A) every constructor × the boundary alphabet of its format inside its bounds (min, min+step, mid, max−step, max; booleans; strings: empty, ASCII, quotes/backslashes, HTML characters, non-BMP runes, control characters, 1 KiB, 3000 bytes; base64 payloads of 0/1/300/5000 bytes): application-set value read by single id, in an id list and in /accessories; controller-written value compared with the typed getter and the remote-update callback. (B) id-list shapes [e] [ne] [e,ne] [ne,e] [e,e] [e1,e2,e3] [50 ids] [write-only] …: each id answered once, in order, with a value or a non-zero status, multi-status ⇒ every entry has a status. (C) response body length sweep: every string length 0..4200 (quick) / 0..9000 (thorough), walking every residue of the 2048-byte chunker, net/http's 4096-byte writer and the 1024-byte frame. (D) databases of 8, 9, 17, 57 (thorough 157) accessories. (E) overlapping responses of two verified controllers, the interleaving forced by flow control (one stops reading inside a response of 5000 / 6000 bytes / 12 MiB with fixed 64 KiB receive buffers while the other completes a request), both orders. After every controller write the value is read back by id and in /accessories. (F) every readable constructor with an application read callback (OnValueGet) returning each value of its alphabet; PUT requests writing 2, 3, 5, 16 and all writable characteristics with different values at once. distinct_nontrivial = distinct (operation, format / shape / frame count) classes Values are set through the typed setter of the constructor's type and through UpdateValue in turn, and the typed remote-update callback (func(int), func([]byte), …) of every constructor must receive exactly the written value once. Plus, in a subprocess built with a scheduling point before EVERY statement of hc's packages (textual insertion through go build -overlay): every interleaving with at most 1 (thorough 2) preemptions of pairs of operations on disjoint objects — and, where the property is about served requests, of pairs of handlers on two verified connections of one accessory touching different characteristics — each side must observe exactly what it observes when the two run one after the other (module-level mutable state is what makes them differ). Added later: PUT entries carry the value alone or together with ev (three member orders) and with the specification's other members (remote, authData, r); every GET id list of length ≤3 (thorough ≤4) over {two readable of one accessory, one of another, unknown accessory, unknown instance id, write-only} with a strict per-entry oracle (value xor error status); every PUT list of length ≤3 (≤4) over known and unknown ids in every position (each existing target gets exactly its value); every other worker and a second pass of the id lists run on a bridge whose accessory ids the application chose (2, 2^32+2, 2^40+2, 2^63+2, 3, …).",
 		Shards: func(string) int { return 16 },
 		Run:    c09Run,
 		Replay: func(c *fw.Ctx, raw json.RawMessage) {
